@@ -45,19 +45,67 @@ def value_for(kind, msg, name):
     return "x"
 
 
-def judge(case):
-    from pyrtcm import RTCMMessage  # pylint: disable=import-outside-toplevel
+def obtain(payload, source):
+    """The message as a user would get it: built directly, parsed, or read from a stream."""
+    import io  # pylint: disable=import-outside-toplevel
+
+    from pyrtcm import RTCMMessage, RTCMReader  # pylint: disable=import-outside-toplevel
+    from mc import pinned  # pylint: disable=import-outside-toplevel
+    from mc.doubles import SegSocket  # pylint: disable=import-outside-toplevel
+
+    if source == "direct":
+        return RTCMMessage(payload=payload)
+    frame = pinned.frame(payload)
+    if source == "parse":
+        return RTCMReader.parse(frame)
+    if source == "file":
+        return RTCMReader(io.BytesIO(frame)).read()[1]
+    sock = SegSocket(frame, [5, 1] if source == "socket-seg" else [])
+    try:
+        return RTCMReader(sock, bufsize=3 if source == "socket-seg" else 4096).read()[1]
+    finally:
+        sock.close()
+
+
+_REUSE = {}
+
+
+def judge(case, reuse=False):
+    """
+    One case = a fresh message and a sequence of assignment attempts.  With reuse=True (the
+    enumeration) the message of the previous case is kept as long as it is provably untouched
+    (snapshot identical, no violation), which makes consecutive cases one long attempt history.
+    """
     from pyrtcm.exceptions import RTCMMessageError  # pylint: disable=import-outside-toplevel
 
     out = core.Outcome()
-    try:
-        msg = RTCMMessage(payload=case["payload"])
-    except Exception:  # pylint: disable=broad-except
-        out.nontrivial = False
-        return out
-    before = snapshot(msg)
+    key = (case["payload"], case.get("source", "direct"))
+    if reuse and _REUSE.get("key") == key:
+        msg, before = _REUSE["msg"], _REUSE["before"]
+    else:
+        _REUSE.clear()
+        try:
+            msg = obtain(case["payload"], case.get("source", "direct"))
+            if msg is None:
+                raise ValueError("no message")
+        except Exception:  # pylint: disable=broad-except
+            out.nontrivial = False
+            return out
+        before = snapshot(msg)
     for name, kind in case["attempts"]:
         val = value_for(kind, msg, name)
+        if kind == "iadd":
+            # augmented assignment  msg.name += delta : read, in-place add, assign back
+            try:
+                cur = getattr(msg, name)
+            except AttributeError:
+                continue
+            delta = b"\x00\x01" if isinstance(cur, (bytes, bytearray)) else "x" if isinstance(cur, str) \
+                else 1 if isinstance(cur, (int, float)) and not isinstance(cur, bool) else None
+            if delta is None:
+                continue
+            cur += delta
+            val = cur
         try:
             setattr(msg, name, val)
             out.bad("assignment-accepted" + (":private" if name.startswith("_") else ""),
@@ -76,7 +124,11 @@ def judge(case):
         if after != before:
             out.bad("message-changed", f"{case['name']}: snapshot changed after attempt on {name!r}")
             break
-    out.obs = core.h64(repr((case["name"], case["attempts"])))
+    out.obs = core.h64(repr((case["name"], case.get("source"), case["attempts"])))
+    if reuse and not out.violations:
+        _REUSE.update(key=key, msg=msg, before=before)
+    else:
+        _REUSE.clear()
     return out
 
 
@@ -96,13 +148,21 @@ def _work(item):
     names = _names(it["payload"])
     if names is None:
         return st
-    kinds = ("zero", "same", "false") if tier == "quick" else ("zero", "same", "false", "str")
+    kinds = ("zero", "same", "false", "iadd") if tier == "quick" else ("zero", "same", "false", "str", "iadd")
     k = 0
     for name in names:
         for kind in kinds:
             case = {"name": it["name"], "payload": it["payload"], "attempts": [[name, kind]]}
-            st.add(case, judge(case), keep_sample=(k == 0))
+            st.add(case, judge(case, reuse=True), keep_sample=(k == 0))
             k += 1
+    # the same message obtained through the parser, a file reader and socket readers
+    pubs = [n for n in names if not n.startswith("_")][:2]
+    for source in ("parse", "file", "socket", "socket-seg"):
+        for name in ["payload", "_payload"] + pubs:
+            for kind in ("zero", "iadd"):
+                case = {"name": it["name"], "payload": it["payload"], "source": source,
+                        "attempts": [[name, kind]]}
+                st.add(case, judge(case, reuse=True))
     if pairs:
         priv = [n for n in names if n.startswith("_")]
         pub = [n for n in names if not n.startswith("_")][:4] + FRESH[:2]
